@@ -81,6 +81,7 @@ mod inner {
         #[inline]
         pub fn retain_non_zero(&mut self) {
             self.inner.retain(|e| likely(e.is_value()));
+            self.len = self.inner.len();
 
             #[cfg(debug_assertions)]
             {
